@@ -262,3 +262,95 @@ Proof.
   rewrite ligature_loop_spec by lia.
   destruct (lig_scan _ _ _ _ _) as [r| | |]; cbn [bind]; try reflexivity. do 2 f_equal. lia.
 Qed.
+
+(* ------------------------------------------------------------------ characters *)
+From Coq Require Import Permutation.
+
+Definition chars (l : list glyph) : list Z := concat (map g_chars l).
+
+Lemma chars_app a b : chars (a ++ b) = chars a ++ chars b.
+Proof. unfold chars. rewrite map_app, concat_app. reflexivity. Qed.
+
+Lemma chars_cons g l : chars (g :: l) = g_chars g ++ chars l.
+Proof. reflexivity. Qed.
+
+Lemma lig_trailing_chars gd rem k : chars (lig_trailing gd rem k) = chars rem.
+Proof.
+  induction rem as [|c r IH]; cbn [lig_trailing]; [reflexivity|].
+  destruct (match_glyph mt_marks_only gd (g_id c)); [|reflexivity].
+  rewrite !chars_cons, IH. reflexivity.
+Qed.
+
+(* the ligature glyph carries its own characters followed by those of the absorbed components, in order;
+   nothing else changes hands *)
+Lemma absorb_chars mt gd : forall rest n acc m,
+  match lig_absorb mt gd rest n acc m with
+  | (a, kept, rem) =>
+    g_chars a = g_chars acc ++ chars (firstn n (filter (fun c => match_glyph mt gd (g_id c)) rest)) /\
+    Permutation (g_chars a ++ chars kept ++ chars rem) (g_chars acc ++ chars rest)
+  end.
+Proof.
+  induction rest as [|c r IH]; intros n acc m; destruct n as [|n]; cbn [lig_absorb firstn filter].
+  - cbn. rewrite app_nil_r. split; [reflexivity|apply Permutation_refl].
+  - cbn. rewrite app_nil_r. split; [reflexivity|apply Permutation_refl].
+  - cbn [chars map concat app]. rewrite app_nil_r. split; [reflexivity|apply Permutation_refl].
+  - destruct (match_glyph mt gd (g_id c)) eqn:E.
+    + specialize (IH n (absorb acc c) (m + 1)).
+      destruct (lig_absorb mt gd r n (absorb acc c) (m + 1)) as [[a k] rem].
+      destruct IH as (I1 & I2). cbn [firstn]. rewrite !chars_cons. split.
+      * rewrite I1. cbn [absorb g_chars]. rewrite <- app_assoc. reflexivity.
+      * cbn [absorb g_chars] in I2. rewrite <- app_assoc in I2. exact I2.
+    + specialize (IH (S n) acc m).
+      destruct (lig_absorb mt gd r (S n) acc m) as [[a k] rem].
+      destruct IH as (I1 & I2). split.
+      * exact I1.
+      * rewrite !chars_cons. cbn [set_pos g_chars].
+        rewrite <- app_assoc.
+        eapply Permutation_trans; [apply Permutation_app_swap_app|].
+        eapply Permutation_trans; [|apply Permutation_app_swap_app].
+        apply Permutation_app_head. exact I2.
+Qed.
+
+Lemma absorb_lig_monotone mt gd : forall rest n acc m,
+  g_lig acc = true -> g_lig (fst (fst (lig_absorb mt gd rest n acc m))) = true.
+Proof.
+  induction rest as [|c r IH]; intros n acc m H; destruct n as [|n]; cbn [lig_absorb fst]; try exact H.
+  destruct (match_glyph mt gd (g_id c)).
+  - apply IH. reflexivity.
+  - specialize (IH (S n) acc m H). destruct (lig_absorb mt gd r (S n) acc m) as [[a k] rem]. exact IH.
+Qed.
+
+(* a ligature of two or more components sets the LIGATURE flag *)
+Lemma absorb_sets_lig_flag mt gd : forall rest n acc m,
+  enough mt gd (S n) rest -> g_lig (fst (fst (lig_absorb mt gd rest (S n) acc m))) = true.
+Proof.
+  induction rest as [|c r IH]; intros n acc m He.
+  - unfold enough in He. cbn in He. lia.
+  - cbn [lig_absorb]. destruct (match_glyph mt gd (g_id c)) eqn:E.
+    + apply absorb_lig_monotone. reflexivity.
+    + specialize (IH n acc m (enough_cons_notP mt gd _ _ _ E He)).
+      destruct (lig_absorb mt gd r (S n) acc m) as [[a k] rem]. exact IH.
+Qed.
+
+(* no character is lost, duplicated or invented by a ligature lookup *)
+Theorem ligature_scan_preserves_characters : forall mt gd subs fuel l out,
+  lig_scan fuel mt gd subs l = Ok out -> Permutation (chars out) (chars l).
+Proof.
+  intros mt gd subs. induction fuel as [|fuel IH]; intros l out H; cbn [lig_scan] in H; [discriminate|].
+  destruct l as [|g rest]; [inversion H; apply Permutation_refl|].
+  assert (Hskip : forall out, (t <- lig_scan fuel mt gd subs rest ;; Ok (g :: t)) = Ok out ->
+                              Permutation (chars out) (chars (g :: rest))).
+  { intros o Ho. destruct (lig_scan fuel mt gd subs rest) as [t| | |] eqn:Et; cbn [bind] in Ho; try discriminate.
+    inversion Ho; subst. rewrite !chars_cons. apply Permutation_app_head. apply IH. exact Et. }
+  destruct (match_glyph mt gd (g_id g)); [|apply Hskip; exact H].
+  destruct (lig_choose mt gd subs g rest) as [[lg|]| | |]; cbn [bind] in H; try discriminate; [|apply Hskip; exact H].
+  pose proof (absorb_chars mt gd rest (length (lig_comps lg)) g 0) as Ha.
+  destruct (lig_absorb mt gd rest (length (lig_comps lg)) g 0) as [[acc kept] rem].
+  destruct Ha as (_ & Hp).
+  destruct (lig_scan fuel mt gd subs (lig_trailing gd rem (len (lig_comps lg)))) as [t| | |] eqn:Et;
+    cbn [bind] in H; try discriminate.
+  inversion H; subst. apply IH in Et. rewrite lig_trailing_chars in Et.
+  rewrite !chars_cons, chars_app. cbn [set_id g_chars].
+  eapply Permutation_trans; [|exact Hp].
+  apply Permutation_app_head. apply Permutation_app_head. exact Et.
+Qed.
